@@ -31,6 +31,8 @@ func main() {
 		err = cmdSort(*in, *out)
 	case "syncmap":
 		err = cmdSyncMap(*in, *out)
+	case "regstress":
+		err = cmdRegStress(*in, *out)
 	case "race":
 		err = cmdRace(*in)
 	case "placeholder":
